@@ -178,20 +178,32 @@ Definition interp_no_cache (cfg : config) (q : request) : bool * bool :=
   else (false, false).
 
 (* ---------- refreshCheck ---------- *)
-(* oq = None is the request == nullptr call of refreshIsCachable; the second component is the value of
-   request->flags.noCache after the call (refreshCheck may set it) *)
+(* oq = None is the request == nullptr call of refreshIsCachable; the pair carried with the request is
+   (flags.noCache, flags.nocacheHack) as clientInterpretRequestHeaders left them *)
+Definition rq_live (oq : option (request * (bool * bool))) : bool :=      (* request && !request->flags.ignoreCc *)
+  match oq with Some (q, _) => negb (q_ignore_cc q) | None => false end.
+Definition rq_min_fresh (oq : option (request * (bool * bool))) : option Z :=
+  match oq with
+  | Some (q, _) => if negb (q_ignore_cc q) then q_cc_opt q q_min_fresh else None
+  | None => None
+  end.
+(* age and check_time as refreshStaleness receives them (min-fresh already added) *)
+Definition rc_age (e : entry) (oq : option (request * (bool * bool))) (now delta : Z) : Z :=
+  let check_time0 := now + delta in
+  let age0 := if e_timestamp e <? check_time0 then check_time0 - e_timestamp e else 0 in
+  match rq_min_fresh oq with Some m => age0 + m | None => age0 end.
+Definition rc_check_time (oq : option (request * (bool * bool))) (now delta : Z) : Z :=
+  match rq_min_fresh oq with Some m => now + delta + m | None => now + delta end.
+
+(* the second component of the result is the value of request->flags.noCache after the call
+   (refreshCheck may set it) *)
 Definition refresh_check (cfg : config) (lmf : Z -> Z) (e : entry) (oq : option (request * (bool * bool)))
            (now delta : Z) : Z * bool :=
   let R := c_rule cfg in
   let nc0 := match oq with Some (_, (nc, _)) => nc | None => false end in
-  let check_time0 := now + delta in
-  let age0 := if e_timestamp e <? check_time0 then check_time0 - e_timestamp e else 0 in
-  let live := match oq with Some (q, _) => negb (q_ignore_cc q) | None => false end in
-  let minfresh := match oq with
-                  | Some (q, _) => if live then q_cc_opt q q_min_fresh else None
-                  | None => None end in
-  let age := match minfresh with Some m => age0 + m | None => age0 end in
-  let check_time := match minfresh with Some m => check_time0 + m | None => check_time0 end in
+  let live := rq_live oq in
+  let age := rc_age e oq now delta in
+  let check_time := rc_check_time oq now delta in
   let '(staleness, sf) := refresh_staleness lmf e check_time age R in
   if e_reval_always e || ((-1 <? staleness) && e_reval_stale e) then (STALE_MUST_REVALIDATE, nc0)
   else
